@@ -227,7 +227,11 @@ class Parser(object):
 
     def p_constant_def(self, t):
         '''constant_def : CONST unique_id EQUALS expression SEMI'''
-        node = model.Constant(t[2], str(t[4]))
+        value = t[4]
+        if not model.CONSTANT_MIN <= value <= model.CONSTANT_MAX:
+            self._parser_error("constant '{}' out of 64-bit range".format(t[2]), t.lineno(1), t.lexpos(1))
+            value = 0
+        node = model.Constant(t[2], str(value))
         self.constdecls[t[2]] = node
         self.nodes.append(node)
 
